@@ -159,7 +159,8 @@ CLAIMS.update({
              'R-SUSPEND (bool await_suspend == registration outcome), R-HANDOFF (no awaiter field touched after the '
              'coroutine may run elsewhere), R-COUNTER (multi-await counter arithmetic agrees), R-HERENEXT (symmetric / '
              'asymmetric twins equal), R-DESTROY, executor assigned before Submit, Store before SetResult, R-HEAD for '
-             'co_awaited Tasks. "Resumes exactly once after the event" over interleavings is not decided.',
+             'co_awaited Tasks, R-LOOPCALLER (Here() of a callback object that is not a BaseCore never hands a core '
+             'back to the running Loop). "Resumes exactly once after the event" over interleavings is not decided.',
         technique='per-path effect/typestate rules over clang CFGs of awaiter instantiations',
         design='4/C13'),
     'C14': dict(
